@@ -3,8 +3,10 @@ package main
 // Symbolic execution of Go statements (path forking).
 
 import (
+	"bytes"
 	"fmt"
 	"go/ast"
+	"go/printer"
 	"go/token"
 	"go/types"
 	"strings"
@@ -48,6 +50,17 @@ func (fx *FnCtx) execBlock(st *State, stmts []ast.Stmt) []outcome {
 }
 
 func (fx *FnCtx) exec(st *State, s ast.Stmt) []outcome {
+	if fx.fc != nil && len(fx.fc.StmtAsserts) > 0 {
+		if _, isBlock := s.(*ast.BlockStmt); !isBlock {
+			key := fx.stmtText(s)
+			for _, c := range fx.fc.StmtAsserts[key] {
+				goal := fx.specBool(fx.env(st), c.Expr)
+				fx.emit(st, "at:assert["+c.Label+"]", "stmt-assert", c.Tags, goal, c.Src, fx.pos(s))
+				st.assume(goal)
+				fx.stmtAssertHit[c] = true
+			}
+		}
+	}
 	switch x := s.(type) {
 	case *ast.BlockStmt:
 		return fx.execBlock(st, x.List)
@@ -230,7 +243,48 @@ func (fx *FnCtx) evalMulti(st *State, e ast.Expr, n int) []Val {
 	return nil
 }
 
+// impureShortCircuit: e is `a || b` / `a && b` whose right operand contains a call to a function
+// that is not pure; such statements are executed by forking on a.
+func (fx *FnCtx) impureShortCircuit(e ast.Expr) (*ast.BinaryExpr, bool) {
+	b, ok := ast.Unparen(e).(*ast.BinaryExpr)
+	if !ok || (b.Op != token.LOR && b.Op != token.LAND) {
+		return nil, false
+	}
+	impure := false
+	ast.Inspect(b.Y, func(n ast.Node) bool {
+		if c, ok := n.(*ast.CallExpr); ok && !fx.isBuiltinOrConv(c) && !fx.isIntrinsic(c) {
+			func() {
+				defer func() { recover() }()
+				ci := fx.resolveCallee(nil, c)
+				if !ci.fc.Pure {
+					impure = true
+				}
+			}()
+		}
+		return true
+	})
+	return b, impure
+}
+
 func (fx *FnCtx) execAssign(st *State, x *ast.AssignStmt) []outcome {
+	if len(x.Lhs) == 1 && len(x.Rhs) == 1 && (x.Tok == token.ASSIGN || x.Tok == token.DEFINE) {
+		if b, ok := fx.impureShortCircuit(x.Rhs[0]); ok {
+			a := fx.evalBool(st, b.X)
+			short, long := st.clone(), st
+			if b.Op == token.LOR {
+				short.assume(a)
+				fx.assign(short, x.Lhs[0], Val{"true", "Bool", tBool})
+				long.assume("(not " + a + ")")
+			} else {
+				short.assume("(not " + a + ")")
+				fx.assign(short, x.Lhs[0], Val{"false", "Bool", tBool})
+				long.assume(a)
+			}
+			v := fx.eval(long, b.Y)
+			fx.assign(long, x.Lhs[0], v)
+			return []outcome{{st: short}, {st: long}}
+		}
+	}
 	if x.Tok != token.ASSIGN && x.Tok != token.DEFINE {
 		// op-assign
 		lhs := x.Lhs[0]
@@ -442,6 +496,17 @@ func (fx *FnCtx) scanWrites(n ast.Node) *loopWrites {
 						} else {
 							t = t.Underlying().(*types.Struct).Field(ix).Type()
 						}
+					}
+				}
+				if _, isPtr := derefType(fx.typeOf(x.X)); isPtr {
+					// store through a pointer: the base variable itself is not written
+					if len(func() []int {
+						if sel, ok := fx.pkg.Info.Selections[x]; ok {
+							return sel.Index()
+						}
+						return nil
+					}()) <= 1 {
+						return
 					}
 				}
 				e = x.X
@@ -920,4 +985,14 @@ func (fx *FnCtx) runDefers(st *State) []*State {
 		st = cur[0]
 	}
 	return cur
+}
+
+func (fx *FnCtx) stmtText(s ast.Stmt) string {
+	var buf bytes.Buffer
+	printer.Fprint(&buf, fx.pkg.Fset, s)
+	t := buf.String()
+	if i := strings.Index(t, "\n"); i >= 0 {
+		t = t[:i]
+	}
+	return strings.Join(strings.Fields(t), " ")
 }
